@@ -246,6 +246,8 @@ SIZES = {
     'build': (5000, 150000),       # x ~5 query steps x ~6 names x ~3 paragraphs, + one dump-then-parse per query step
     'nsdoc': (1400, 42000),        # whitespace-only separator runs of 2..4 lines, Copyright(..., strict=False)
     'long': (900, 28000),          # built paragraphs with LONG pattern lists: x ~20 names x ~3 paragraphs x 2..3 stages
+    'lead': (700, 22000),          # built paragraphs whose patterns START with '.' or '/': x ~14 names x ~3 paragraphs x 2..3 stages
+    'cmt': (1600, 60000),          # BYTES documents with '#' comment lines + the same document as str: x ~6 names x ~3 paragraphs x 2
 }
 
 LIT = ['a', 'a', 'a', 'b', 'b', 'c', 'A', '/', '/', '.']
@@ -700,6 +702,355 @@ def gen_long_case(r, wide):
 
 
 # ---------------------------------------------------------------------------
+# patterns that START with '.' or '/' in paragraphs BUILT through the API (kind 'long' with cls == 'lead')
+
+LEAD_FIXED = ['.gitignore', '.github/*', '../shared/?.h', './x', '/abs/*', '...', '.', '..', './', '../', '/', './*', '../*', '.*',
+              '/*', '.?', './.hidden', '.?*', '..?', '.travis.yml', '.pc/*', '.git*', './debian/*', '/usr/share/doc/*',
+              '../../include/*.h', '.../*', './/x', '/./x', '.\\*', './\\?x', '/\\\\x', '.config/*/settings.?']
+LEAD_PREFIX = ['.', '.', '.', './', './', './', '/', '/', '/', '../', '../', '..', '...', '.../', '../../', '/./', '//', '././',
+               './.', '/.', '../.', './/', '/../']
+LEAD_BODY = ['gitignore', 'github/*', 'shared/?.h', 'x', 'x', 'abs/*', 'git*', 'pc/*', 'travis.yml', 'config/*/settings.?',
+             'usr/share/doc/*', 'debian/*', 'include/*.h', '*', '?', '*.c', 'a', 'a/b', 'hidden/.inner', 'x.', 'x/.', 'x/..',
+             '\\*', '\\?x', 'a\\\\b', 'src/*/Makefile.in', 'debian/rules', 'a-b', '(x)', '[x]', 'x+', 'README', '']
+
+
+def lead_class(p):
+    """Which leading characters a pattern / a name starts with."""
+    for pre in ('../', './', '...', '..', '.', '//', '/'):
+        if p.startswith(pre):
+            return pre
+    return 'other'
+
+
+def gen_lead_pattern(r):
+    if r.random() < 0.35:
+        return r.choice(LEAD_FIXED)
+    return r.choice(LEAD_PREFIX) + r.choice(LEAD_BODY)
+
+
+def lead_strip_variants(s):
+    """What `s` becomes when an implementation "normalises" its leading characters (each differs from s)."""
+    import posixpath
+    out = [s.lstrip('./'), s.lstrip('.'), s.lstrip('/'), s[1:], s.strip('./'), posixpath.basename(s)]
+    for pre in ('./', '../', '/', '.', '..', '...'):
+        if s.startswith(pre):
+            out.append(s[len(pre):])
+    if s:
+        out.append(posixpath.normpath(s))
+        out.append(posixpath.normpath('/' + s))
+        out.append(posixpath.normpath('/' + s)[1:])
+    seen, res = set([s]), []
+    for x in out:
+        if x not in seen:
+            seen.add(x)
+            res.append(x)
+    return res
+
+
+def lead_add_variants(s):
+    return [x for x in ('./' + s, '/' + s, '.' + s, '../' + s, '..' + s, s + '/', s + '/.') if x != s]
+
+
+def gen_lead_list(r, wide, earlier):
+    n = r.choice((1, 1, 2, 2, 3, 4))
+    pats = [gen_lead_pattern(r)]
+    while len(pats) < n:
+        k = r.random()
+        if earlier and k < 0.30:
+            # the same pattern as in an earlier paragraph with its leading characters stripped / with leading characters
+            # added: only the LAST paragraph that really matches may answer
+            p = r.choice(r.choice(earlier))
+            cand = lead_strip_variants(p) if r.random() < 0.6 else lead_add_variants(p)
+            cand = [x for x in cand if x and G.is_legal(x) and not x.endswith('\\')]
+            p = r.choice(cand) if cand else gen_lead_pattern(r)
+        elif k < 0.70:
+            p = gen_lead_pattern(r)
+        elif k < 0.82:
+            cand = [x for x in lead_strip_variants(r.choice(pats)) if x and G.is_legal(x)]
+            p = r.choice(cand) if cand else gen_lead_pattern(r)
+        else:
+            p = gen_pattern(r, wide, illegal_ok=False)
+        if p and p not in pats and not any(ch in p for ch in ' \t\n'):
+            pats.append(p)
+    r.shuffle(pats)
+    return pats
+
+
+def lead_names(r, lists, budget):
+    """Names with the same (and with other) leading characters as the patterns: literal expansions, the same with the leading
+    './' '../' '/' '.' run stripped / path-normalised / reduced to the base name, the same with such characters put in front,
+    one edit.  Returns [(name, class), ...]."""
+    out, seen = [], set()
+
+    def add(name, cls):
+        if name is not None and name not in seen and '\n' not in name:
+            seen.add(name)
+            out.append((name, cls))
+
+    order = [(li, k) for li, pats in enumerate(lists) for k in range(len(pats))]
+    r.shuffle(order)
+    order.sort(key=lambda t: lead_class(lists[t[0]][t[1]]) == 'other')
+    for li, k in order:
+        if len(out) >= budget:
+            break
+        p = lists[li][k]
+        s = _literal_name(r, p)
+        if s is None:
+            continue
+        add(s, 'whole-pattern')
+        sv = lead_strip_variants(s)
+        r.shuffle(sv)
+        for x in sv[:2]:
+            add(x, 'leading-characters-stripped')
+        av = lead_add_variants(s)
+        r.shuffle(av)
+        for x in av[:1 if lead_class(p) != 'other' else 2]:
+            add(x, 'leading-characters-added')
+        if r.random() < 0.3:
+            add(edit(r, s), 'edited')
+    for x in r.sample(['.', '..', '/', './', '.x', './x', '/x', '../x', '.gitignore', '', 'x', '.a/b', 'a/.b'], 2):
+        add(x, 'fixed-probe')
+    return out
+
+
+def gen_lead_case(r, wide):
+    nf = r.choice((1, 2, 2, 3)) if not wide else r.choice((1, 2, 2, 3, 3, 4))
+    paras, lists = [], []
+    if r.random() < 0.25:
+        paras.append({'F': [r.choice(('*', '*', '*/*', '?*'))], 'via': 'create'})
+        lists.append(paras[-1]['F'])
+    for j in range(nf):
+        if r.random() < 0.25:
+            paras.append({'L': 1})
+        pats = gen_lead_list(r, wide, [l for l in lists if l[0] not in ('*', '*/*', '?*')])
+        via = r.choice(('create', 'create', 'create', 'create', 'assign', 'assign-in-doc'))
+        ent = {'F': pats, 'via': via}
+        if r.random() < 0.25:
+            ent['seq'] = 'tuple'
+        if via != 'create':
+            ent['first'] = r.choice((['placeholder'], ['*'], [x.lstrip('./') or 'x' for x in pats[:1]], [gen_lead_pattern(r)]))
+            if not G.GlobList(ent['first']).legal:
+                ent['first'] = ['placeholder']
+        paras.append(ent)
+        lists.append(pats)
+    if r.random() < 0.03:
+        k = r.randrange(len(lists))
+        lists[k].insert(r.randrange(len(lists[k]) + 1), r.choice(('./\\d', '.\\.', '/\\/x', '../\\a')))
+    if r.random() < 0.25:
+        paras.append({'L': 1})
+    named = lead_names(r, [l for l in lists if G.GlobList(l).legal], 12 if not wide else 16)
+    case = {'kind': 'long', 'cls': 'lead', 'paras': paras, 'names': [n for n, _ in named], 'ncls': [c for _, c in named],
+            'dump': r.choice(('return', 'file')),
+            'reparse': r.choice(('parse', 'parse', 'parse-file', 'parse-noeol', 'parse-bytes', 'parse-bytesio', 'parse-disk'))}
+    if r.random() < 0.3:
+        case['strict'] = False
+    if r.random() < 0.35:
+        fidx = [i for i, p in enumerate(paras) if 'F' in p and G.GlobList(p['F']).legal]
+        if fidx:
+            i = r.choice(fidx)
+            old = paras[i]['F']
+            k = r.randrange(len(old))
+            cand = [x for x in lead_strip_variants(old[k]) + lead_add_variants(old[k])
+                    if x and G.is_legal(x) and x not in old and not x.endswith('\\')]
+            if cand:
+                newp = list(old)
+                newp[k] = r.choice(cand)
+                case['reassign'] = [sum(1 for p in paras[:i] if 'F' in p), newp]
+                for nm in (_literal_name(r, old[k]), _literal_name(r, newp[k])):
+                    if nm is not None and nm not in case['names']:
+                        case['names'].append(nm)
+                        case['ncls'].append('changed-by-reassignment')
+    return case
+
+
+# ---------------------------------------------------------------------------
+# BYTES documents with '#' comment lines (kind 'cmt')
+
+# comment lines ('%d' -> a number unique in the document); the ones that look like a field are "commented-out field lines"
+CMT_PLAIN = ['#', '# comment %d', '# a note, with: a colon %d', '#\t', '##', '#  indented %d', '# .', '#.', '# * ? \\ %d',
+             '# -*- coding: utf-8 -*-', '# é中 %d', '#comment-without-blank-%d', '# TODO(%d): check']
+CMT_FIELD = ['#Files: old%d/*', '#Files: old%d/*', '# Files: old%d/*', '#Copyright: 1999 Nobody%d', '#License: GPL-%d+',
+             '#Files:', '#Comment: %d']
+# gaps between paragraphs: e = empty line, c = comment line(s), w = whitespace-only line
+CMT_GAP_BLOCK = ['ece', 'ece', 'ece', 'ecce', 'ecece', 'eece', 'ecee', 'ececce', 'wce', 'ecw']      # comment-only block
+CMT_GAP_BEFORE = ['ec', 'ec', 'ecc', 'eec', 'ecec']               # comment directly in front of the first field
+CMT_GAP_AFTER = ['ce', 'ce', 'cce', 'cec', 'cece', 'cee']         # comment directly behind the last field
+CMT_TAIL = ['c', 'cc', 'ec', 'ec', 'ece', 'ecc', 'cec', 'eec', 'ecec', 'ececc', 'ce']
+CMT_TOP = ['c', 'c', 'cc', 'ce', 'cec', 'ec']
+# bytes sources and the str source of the same family (the control)
+CMT_PAIR = {'bytes-list': 'str-list', 'bytes-list-noeol': 'str-list-noeol', 'bytes-tuple': 'str-tuple', 'bytes-gen': 'str-gen',
+            'bytes-iter': 'str-iter', 'bytesio': 'stringio', 'bytes-buffered': 'stringio', 'disk-rb': 'disk-text',
+            'disk-rb-raw': 'disk-text', 'bytes-whole': 'str-whole'}
+CMT_SRCS = ['bytes-list', 'bytes-list', 'bytes-list', 'bytes-list-noeol', 'bytes-tuple', 'bytes-gen', 'bytes-gen', 'bytes-iter',
+            'bytesio', 'bytesio', 'bytesio', 'bytes-buffered', 'disk-rb', 'disk-rb', 'disk-rb', 'disk-rb-raw', 'bytes-whole']
+CMT_FOCUS = ['between', 'between', 'between', 'inside-files', 'inside-files', 'inside-files', 'before-first-field', 'after-last',
+             'after-last', 'commented-out-field', 'commented-out-field', 'top', 'mixed', 'mixed']
+
+
+def is_comment_line(body):
+    return body.startswith('#')
+
+
+def gen_cmt_case(r, wide):
+    """A copyright document with '#' comment lines, to be handed to Copyright() as BYTES (and, as the control, as str).  One
+    position class is forced per document (CMT_FOCUS), the others occur at a lower rate."""
+    focus = r.choice(CMT_FOCUS)
+    nf = r.choice((1, 2, 2, 3, 3, 4)) if not wide else r.choice((1, 2, 3, 3, 4, 5))
+    illegal_ok = r.random() < 0.04
+    realistic = r.random() < 0.2
+    uid = [0]
+    old_names = []
+
+    def comment(field=False):
+        uid[0] += 1
+        t = r.choice(CMT_FIELD if field else CMT_PLAIN)
+        if '%d' in t:
+            t = t % uid[0]
+        if t.startswith(('#Files: old', '# Files: old')):
+            old_names.append('old%d/x' % uid[0])
+        return t
+
+    def comments(field=False):
+        out = [comment(field)]
+        for _ in range(r.choice((0, 0, 0, 1, 1, 2))):
+            out.insert(r.randrange(len(out) + 1), comment(field and r.random() < 0.3))
+        return out
+
+    def gap(code):
+        out = []
+        for ch in code:
+            if ch == 'e':
+                out.append('')
+            elif ch == 'w':
+                out.append(r.choice(WS_LINES))
+            else:
+                out.extend(comments(field=(focus == 'commented-out-field' and r.random() < 0.3) or r.random() < 0.1))
+        return out
+
+    paras, lists = [], []
+    for j in range(nf):
+        if r.random() < 0.25:
+            paras.append({'L': 1})
+        legal = [gl for gl in lists if gl.legal]
+        k = r.random()
+        if j == 0 and k < 0.3:
+            pats = ['*']
+        elif realistic:
+            pats = r.sample(REAL_POOL, r.choice((1, 2, 3, 4)))
+        elif k < 0.42:
+            pats = [p for p in gen_lead_list(r, wide, []) if p != '.']
+        elif legal and k < 0.6:
+            pats = overlapping_list(r, r.choice(legal), wide)[0]
+        else:
+            pats = gen_list(r, wide, illegal_ok=illegal_ok)
+        if r.random() < 0.06:
+            # a '#' inside / at the start of a pattern is NOT a comment: the line starts with 'Files:' or with a blank
+            pats = list(pats)
+            pats.insert(r.randrange(len(pats) + 1), r.choice(('a#b', '#x', '#', 'src/#*#', '#*')))
+        pats = pats or ['x']
+        paras.append({'F': pats, 'sep': r.choice((0, 1, 1, 2, 2)), 'fo': r.choice((0, 0, 1, 1, 2))})
+        lists.append(G.GlobList(pats))
+    if r.random() < 0.3:
+        paras.append({'L': 1})
+    fi = [i for i, p in enumerate(paras) if 'F' in p]
+    if focus in ('inside-files', 'commented-out-field'):
+        # at least one Files field with a slot between two of its lines
+        i = r.choice(fi)
+        p = paras[i]
+        if len(p['F']) == 1:
+            p['sep'] = 2
+        elif p['sep'] == 0:
+            p['sep'] = r.choice((1, 2))
+    # --- gaps in front of the paragraphs
+    n = len(paras)
+    pool = {'between': CMT_GAP_BLOCK, 'before-first-field': CMT_GAP_BEFORE}.get(focus)
+    gaps = []
+    for i in range(n):
+        k = r.random()
+        if pool and k < 0.6:
+            gaps.append(r.choice(pool))
+        elif focus == 'mixed' and k < 0.6:
+            gaps.append(r.choice(CMT_GAP_BLOCK + CMT_GAP_BEFORE + CMT_GAP_AFTER))
+        elif k < (0.2 if not pool else 0.75):
+            gaps.append(r.choice(CMT_GAP_BLOCK + CMT_GAP_BEFORE + CMT_GAP_AFTER))
+        else:
+            gaps.append('e')
+    if pool and not any(g in pool for g in gaps):
+        gaps[r.randrange(n)] = r.choice(pool)
+    # --- lines
+    lines = []
+    if focus == 'top' or r.random() < 0.1:
+        lines.extend(gap(r.choice(CMT_TOP)))
+    lines.append('Format: %s' % FORMAT)
+    if r.random() < 0.1:
+        lines.extend(comments())
+    lines.append('Upstream-Name: x')
+    forced = [False]
+
+    def para_with_comments(i, p):
+        base = para_lines(i, p)
+        out = [base[0]]
+        field = base[0].split(':', 1)[0]
+        for k in range(1, len(base)):
+            line = base[k]
+            cont = line.startswith(' ')
+            in_files = cont and field == 'Files'
+            if in_files:
+                rate = 0.55 if focus in ('inside-files', 'commented-out-field', 'mixed') else 0.12
+            elif cont:
+                rate = 0.2 if focus == 'mixed' else 0.06
+            else:
+                rate = 0.3 if focus == 'mixed' else 0.08
+                if field == 'Files' and focus in ('inside-files', 'commented-out-field'):
+                    rate = 0.35
+            if r.random() < rate:
+                out.extend(comments(field=(focus == 'commented-out-field' and (in_files or field == 'Files') and r.random() < 0.8)
+                                    or r.random() < 0.12))
+                if in_files:
+                    forced[0] = True
+            if not cont:
+                field = line.split(':', 1)[0]
+            out.append(line)
+        return out
+
+    bodies = [para_with_comments(i, p) for i, p in enumerate(paras)]
+    if focus in ('inside-files', 'commented-out-field') and not forced[0]:
+        # force one comment between two lines of a multi-line Files field
+        cand = []
+        for i, p in enumerate(paras):
+            if 'F' in p:
+                b = bodies[i]
+                f0 = [k for k, l in enumerate(b) if l.startswith('Files:')][0]
+                k = f0 + 1
+                while k < len(b) and (b[k].startswith(' ') or b[k].startswith('#')):
+                    if b[k].startswith(' '):
+                        cand.append((i, k))
+                    k += 1
+        if cand:
+            i, k = r.choice(cand)
+            bodies[i][k:k] = comments(field=(focus == 'commented-out-field'))
+    for i in range(n):
+        lines.extend(gap(gaps[i]))
+        lines.extend(bodies[i])
+    if focus == 'after-last' or r.random() < 0.15:
+        lines.extend(gap(r.choice(CMT_TAIL)))
+    elif r.random() < 0.1:
+        lines.append('')
+    if not any(is_comment_line(l) for l in lines):
+        lines.extend(gap('ec'))
+    names = gen_names(r, lists, 5)
+    for nm in old_names[:2]:
+        if nm not in names:
+            names.append(nm)
+    case = {'kind': 'cmt', 'src': r.choice(CMT_SRCS), 'paras': paras, 'lines': lines, 'names': names}
+    if r.random() < 0.35:
+        case['strict'] = False
+    if r.random() < 0.15:
+        case['final_eol'] = False
+    return case
+
+
+# ---------------------------------------------------------------------------
 # build histories (kind 'build')
 
 def escape_literal(name):
@@ -1000,6 +1351,43 @@ def cases(ctx):
     r = ctx.rng('long')
     for i in range(ctx.size(*SIZES['long'])):
         yield gen_long_case(r, wide)
+    # -- paragraphs BUILT through the API whose patterns START with '.' or '/' ('./' '../' '...'): files as given, matches()
+    #    for names with the same / with other leading characters, find, re-assignment, dump-then-parse
+    if ctx.shard == 0:
+        yield {'kind': 'long', 'cls': 'lead', 'dump': 'return', 'reparse': 'parse',
+               'paras': [{'F': ['.gitignore', '.github/*', '../shared/?.h', './x', '/abs/*', '...'], 'via': 'create'}, {'L': 1},
+                         {'F': ['gitignore', 'github/*', 'shared/?.h', 'x', 'abs/*'], 'via': 'create', 'seq': 'tuple'}],
+               'names': ['.gitignore', 'gitignore', './.gitignore', '.github/a', 'github/a', '../shared/a.h', 'shared/a.h',
+                         './shared/a.h', '.shared/a.h', './x', 'x', '/x', '/abs/a', 'abs/a', '//abs/a', '...', '..', '.', '',
+                         '....', '/', './'],
+               'reassign': [0, ['.gitignore', '.github/*', 'shared/?.h', './x', '/abs/*', '...']]}
+        yield {'kind': 'long', 'cls': 'lead', 'dump': 'file', 'reparse': 'parse-bytesio', 'strict': False,
+               'paras': [{'F': ['*'], 'via': 'create'}, {'F': ['./*', '../*'], 'via': 'assign', 'first': ['*']},
+                         {'F': ['.', '..', '/', './', '../'], 'via': 'assign-in-doc', 'first': ['placeholder']},
+                         {'F': ['.*', '/*/?'], 'via': 'create'}],
+               'names': ['.', '..', '/', './', '../', './a', '../a', 'a', '.a', '/a/b', 'a/b', '/a', '.../a', '', '.\n']}
+    r = ctx.rng('lead')
+    for i in range(ctx.size(*SIZES['lead'])):
+        yield gen_lead_case(r, wide)
+    # -- BYTES documents with '#' comment lines; the same document as str is the control
+    if ctx.shard == 0:
+        doc = ['# top of the file', 'Format: %s' % FORMAT, 'Upstream-Name: x', '', '# a comment-only block', '# between paragraphs',
+               '', 'Files: *', 'Copyright: c0', 'License: L0', '', '# before the first field', 'Files: debian/*', '# inside',
+               ' src/a', '#Files: old/*', ' .gitignore', '# behind the last pattern', 'Copyright: c1', 'License: L1', '# behind the '
+               'last field', '', 'License: L2', '# in a text', ' text 2', '', '#', '', 'Copyright: c3', 'License: L3', 'Files:',
+               '# first', ' debian/rules', '#Copyright: nobody', ' *.c', '', '# after the last paragraph', '', '# and more']
+        paras = [{'F': ['*'], 'sep': 0, 'fo': 0}, {'F': ['debian/*', 'src/a', '.gitignore'], 'sep': 1, 'fo': 0}, {'L': 1},
+                 {'F': ['debian/rules', '*.c'], 'sep': 2, 'fo': 1}]
+        for src in sorted(CMT_PAIR):
+            for strict in (True, False):
+                case = {'kind': 'cmt', 'src': src, 'paras': paras, 'lines': doc,
+                        'names': ['debian/rules', 'debian/x', 'src/a', 'a.c', 'debian/a.c', 'README', 'old/x', '.gitignore', 'src/a.in']}
+                if not strict:
+                    case['strict'] = False
+                yield case
+    r = ctx.rng('cmt')
+    for i in range(ctx.size(*SIZES['cmt'])):
+        yield gen_cmt_case(r, wide)
     # -- build histories through the public API (empty / parsed start, adds, re-assignments, queries, dump-then-parse)
     if ctx.shard == 0:
         yield {'kind': 'build', 'start': {'mode': 'empty', 'paras': []},
@@ -1055,13 +1443,14 @@ def oracle_long(ctx, gl, name):
     memo = gl.__dict__.setdefault('_c16_memo', {})
     if name in memo:
         return memo[name]
+    pre = gl.cheap if isinstance(gl.cheap, str) else 'long'      # 'long' / 'lead': which class the list belongs to
     want = gl.matches(name)
     other = gl.matches_greedy(name)
     ok = other == want
     _LONG_SEQ[0] += 1
     cost = len(name) * gl.__dict__.setdefault('_c16_size', sum(len(t) for t in gl.toks))
     if ok and (cost <= 1200 or (_LONG_SEQ[0] % 24 == 0 and cost <= 20000)):
-        ctx.count('long:oracle-cross-checked-with-distance-dp')
+        ctx.count('%s:oracle-cross-checked-with-distance-dp' % pre)
         ok = (gl.distance(name) == 0) == want
     if not ok:
         ctx.inconclusive.append('reference model inconsistent on %r / %r: position sets say %r, backtrack-point matcher %r'
@@ -1072,7 +1461,7 @@ def oracle_long(ctx, gl, name):
         # names of this class are derived from the patterns themselves (whole pattern, its pieces, glued neighbours, one edit)
         ctx.nontrivial(case={'pats': gl.patterns, 'name': name})
         ctx.count('nontrivial:hit' if want else 'nontrivial:near-miss')
-        ctx.count('long:nontrivial')
+        ctx.count('%s:nontrivial' % pre)
     memo[name] = want
     return want
 
@@ -1725,6 +2114,281 @@ def run_wsdoc(ctx, case):
             ctx.count('%s-find:none-matches-in-document-with-whitespace-only-separator' % pre)
 
 
+# ---------------------------------------------------------------------------
+# BYTES documents with '#' comment lines (kind 'cmt')
+
+_CMT_FIELD_RE = None
+
+
+def cmt_classify(lines):
+    """One label per maximal run of comment lines: where it stands in the document (evidence counters only)."""
+    import re
+    global _CMT_FIELD_RE
+    if _CMT_FIELD_RE is None:
+        _CMT_FIELD_RE = re.compile(r'^#\s?[A-Za-z-]+:')
+    labels = []
+    n = len(lines)
+    last_content = max([k for k, l in enumerate(lines) if l.strip(' \t') and not is_comment_line(l)] or [-1])
+    cur, seen, i = None, False, 0          # cur: field the previous line belongs to (None: start of file / after a separator)
+    while i < n:
+        l = lines[i]
+        if not is_comment_line(l):
+            if l.strip(' \t') == '':
+                cur = None
+            elif l[0] not in ' \t':
+                cur = l.split(':', 1)[0]
+                seen = True
+            i += 1
+            continue
+        j = i
+        while j < n and is_comment_line(lines[j]):
+            j += 1
+        nxt = lines[j] if j < n else None
+        if i > last_content:
+            lab = 'after-last-paragraph'
+        elif cur is None:
+            if nxt is not None and nxt.strip(' \t') == '':
+                lab = 'comment-only-block-between-paragraphs' if seen else 'top-of-file'
+            else:
+                lab = 'before-first-field-of-paragraph' if seen else 'top-of-file'
+        elif nxt.strip(' \t') == '':
+            lab = 'after-last-field-of-paragraph'
+        elif nxt[0] in ' \t':
+            lab = 'inside-files-field' if cur == 'Files' else 'inside-other-multi-line-field'
+        else:
+            lab = 'between-files-field-and-next-field' if cur == 'Files' else 'between-fields'
+        labels.append(lab)
+        if any(_CMT_FIELD_RE.match(x) for x in lines[i:j]):
+            labels.append('commented-out-field-line')
+            if lab in ('inside-files-field', 'between-files-field-and-next-field'):
+                labels.append('commented-out-field-line-inside-files-field')
+        i = j
+    return labels
+
+
+def cmt_parse(ctx, lines, src, strict=True, final_eol=True):
+    """Copyright() over the document given as line bodies, handed over as the requested kind of bytes / str source."""
+    from debian import copyright as cp
+
+    def mk(source):
+        if strict:
+            return cp.Copyright(source)
+        with warnings.catch_warnings(record=True) as caught:
+            warnings.simplefilter('always')
+            c = cp.Copyright(source, strict=False)
+        for w in caught:
+            ctx.count('ns:note:warning:%s' % w.category.__name__)
+        return c
+
+    is_bytes = src.startswith(('bytes', 'disk-rb'))
+    with_eol = [l + '\n' for l in lines]
+    if with_eol and not final_eol:
+        with_eol[-1] = lines[-1]
+    text = ''.join(with_eol)
+    if is_bytes:
+        enc = lambda x: x.encode('utf-8')
+    else:
+        enc = lambda x: x
+    if src in ('bytes-list', 'str-list'):
+        return mk([enc(l) for l in with_eol])
+    if src in ('bytes-list-noeol', 'str-list-noeol'):
+        return mk([enc(l) for l in lines])
+    if src in ('bytes-tuple', 'str-tuple'):
+        return mk(tuple(enc(l) for l in with_eol))
+    if src in ('bytes-gen', 'str-gen'):
+        return mk(enc(l) for l in with_eol)
+    if src in ('bytes-iter', 'str-iter'):
+        return mk(iter([enc(l) for l in with_eol]))
+    if src == 'bytesio':
+        return mk(io.BytesIO(text.encode('utf-8')))
+    if src == 'bytes-buffered':
+        return mk(io.BufferedReader(io.BytesIO(text.encode('utf-8'))))
+    if src == 'stringio':
+        return mk(io.StringIO(text))
+    if src in ('bytes-whole', 'str-whole'):
+        return mk(enc(text))
+    if src in ('disk-rb', 'disk-rb-raw', 'disk-text'):
+        path = _scratch_path(ctx)
+        with open(path, 'wb') as f:
+            f.write(text.encode('utf-8'))
+        if src == 'disk-rb':
+            f = open(path, 'rb')
+        elif src == 'disk-rb-raw':
+            f = open(path, 'rb', buffering=0)
+        else:
+            f = open(path, 'r', encoding='utf-8', newline='')
+        try:
+            return mk(f)
+        finally:
+            f.close()
+    raise ValueError('unknown document source %r' % (src,))
+
+
+def run_cmt(ctx, case):
+    """The same copyright document WITH '#' comment lines as str (control) and as BYTES.  Both parses must show the
+    paragraphs written (comment lines removed), the same files tuples, the same matches() answers (glob model) and the same
+    find_files_paragraph results (last-match rule).  M.cmt.str.* judge the str parse, M.cmt.* the bytes parse."""
+    paras, lines, src, names = case['paras'], case['lines'], case['src'], list(case['names'])
+    strict = case.get('strict', True)
+    feol = case.get('final_eol', True)
+    ssrc = CMT_PAIR[src]
+    whole = src == 'bytes-whole'
+    ns = '' if strict else NS_SUFFIX
+    want_files = _written_files_view(paras)
+    want_tags = [t for t, _ in want_files]
+    want_lists = [G.GlobList(p['F']) for p in paras if 'F' in p]
+    plain = [l for l in lines if not is_comment_line(l)]
+    rr = random.Random('cmt/%d/%d' % (len(lines), len(names)))
+    small = dict(case)
+    small['names'] = names[:1]
+    ctx.count('cmt:documents')
+    ctx.count('cmt:source:%s' % src)
+    ctx.count('cmt:%s' % ('strict' if strict else 'strict=False'))
+    if not feol:
+        ctx.count('cmt:no-end-of-line-after-last-line')
+    labels = cmt_classify(lines)
+    for lab in labels:
+        ctx.count('cmt:position:%s' % lab)
+    ctx.count('cmt:comment-lines', sum(1 for l in lines if is_comment_line(l)))
+    if any('#' in x for p in paras if 'F' in p for x in p['F']):
+        ctx.count('cmt:pattern-containing-#-that-is-not-a-comment')
+
+    def parse(ls, s):
+        try:
+            return cmt_parse(ctx, ls, s, strict, feol)
+        except Exception as e:
+            return e
+
+    def structure(doc):
+        """('ok', files view, all ids) / ('raised', text) / ('paragraphs', files view): are the Files paragraphs written the
+        Files paragraphs shown (by their unique Copyright ids, in order)?"""
+        if isinstance(doc, Exception):
+            return ('raised', '%s: %s' % (type(doc).__name__, doc))
+        try:
+            fv = _files_view(doc)
+            ids = _para_ids(doc.all_paragraphs())
+            hdr = doc.header.format
+        except Exception as e:
+            return ('raised', 'listing the paragraphs raised %s: %s' % (type(e).__name__, e))
+        if [t for t, _ in fv] != want_tags or hdr != FORMAT:
+            return ('paragraphs', fv)
+        return ('ok', fv, ids)
+
+    def as_written(doc):
+        st = structure(doc)
+        return st[0] == 'ok' and st[1] == want_files
+
+    def key_for(st, where):
+        if st[0] == 'raised':
+            return 'document-rejected-%s' % where
+        if len(st[1]) < len(want_files):
+            return 'files-paragraph-lost-%s' % where
+        if len(st[1]) > len(want_files):
+            return 'extra-files-paragraph-%s' % where
+        return 'files-paragraphs-differ-%s' % where
+
+    def queries(doc, st, label, mon, cnt):
+        """files tuples against what was written (a difference is turned into names, as for the long lists), every
+        paragraph's matches() against the glob model, find_files_paragraph against the last-match rule.  Returns (results per
+        name, number of violations recorded)."""
+        fps = list(doc.all_files_paragraphs())
+        if st[2] != _written_ids(paras):
+            # same Files paragraphs, stand-alone License paragraphs differ: no resolution is affected - a note
+            ctx.count('cmt:note:non-files-paragraphs-differ-from-written/%s-source' % label)
+        differs, extra, what = False, [], None
+        for k, (got, want) in enumerate(zip(st[1], want_files)):
+            ctx.mon('M.cmt.%sfiles' % ('' if label == 'bytes' else 'str.'))
+            if got == want:
+                continue
+            differs = True
+            if what is None:
+                what = 'Files paragraph #%d (%s source): files is %r, written was %r' % (k, label, got[1], want[1])
+            a, b = set(want[1]), set(got[1])
+            for pat in sorted(b - a)[:6] + sorted(a - b)[:6]:
+                nm = _literal_name(rr, pat)
+                if nm is not None and nm not in extra:
+                    extra.append(nm)
+        nm = names + [x for x in extra if x not in names]
+        mark = _viol_mark(ctx)
+        before = ctx.counters['op:matches']
+        res = doc_queries(ctx, case, doc, fps, want_lists, nm, {}, '-cmt-' + label, mon=mon, cnt=cnt)
+        ctx.count('cmt:matches-observed/%s-source' % label, ctx.counters['op:matches'] - before)
+        suffix = '/document-with-comment-lines/%s-source' % label
+        if differs:
+            suffix += '/files-differs-from-what-was-written'
+        n = _viol_retag(ctx, mark, suffix + ns)
+        if n and differs:
+            ctx.violations[-1]['msg'] = (ctx.violations[-1]['msg'] + ' || ' + what)[:2000]
+        if differs and not n:
+            ctx.count('cmt:note:files-differs-from-what-was-written-without-observed-effect/%s-source' % label)
+            ctx.extra.setdefault('cmt_notes', [])
+            if len(ctx.extra['cmt_notes']) < 3:
+                ctx.extra['cmt_notes'].append(what[:600])
+        return res[:len(names)], n
+
+    # --- the control: the same document as str, judged against what was written
+    ctx.mon('M.cmt.str.order')
+    sdoc = parse(lines, ssrc)
+    st = structure(sdoc)
+    if st[0] != 'ok':
+        if as_written(parse(plain, ssrc)):
+            ctx.violation(key_for(st, 'at-comment-lines') + '/str-source' + ns,
+                          'Copyright(%s) over the document with comment lines (source %s) %s; written were %r, and the same document '
+                          'WITHOUT its comment lines (same source kind) shows exactly those.  Document: %r'
+                          % ('' if strict else '..., strict=False', ssrc,
+                             'raised ' + st[1] if st[0] == 'raised' else 'shows Files paragraphs %r' % (st[1],), want_files, lines), small)
+        elif whole:
+            ctx.count('cmt:note:whole-string-source-not-judged')
+        else:
+            ctx.inconclusive.append('comment document did not parse to what was written, with AND without its comment lines '
+                                    '(source %s): wrote %r, got %r' % (ssrc, want_files, st[1]))
+        return
+    ctx.evaluations += max(0, len(names) - 1)
+    sres, n = queries(sdoc, st, 'str', 'M.cmt.str.find', 'cmt-str-find')
+    if n:
+        return
+    # --- the same document as BYTES
+    ctx.mon('M.cmt.order')
+    bdoc = parse(lines, src)
+    bst = structure(bdoc)
+    if bst[0] != 'ok':
+        at_comments = as_written(parse(plain, src))
+        if whole and not at_comments:
+            ctx.count('cmt:note:whole-string-source-not-judged')      # a whole bytes string is not a documented source
+            return
+        ctx.violation(key_for(bst, 'at-comment-lines' if at_comments else 'in-bytes-document') + '/bytes-source' + ns,
+                      'Copyright(%s) over the document with comment lines handed over as BYTES (source %s) %s; the same document as '
+                      'str (source %s) shows the Files paragraphs written, %r; the bytes document WITHOUT its comment lines %s.  '
+                      'Document: %r'
+                      % ('' if strict else '..., strict=False', src,
+                         'raised ' + bst[1] if bst[0] == 'raised' else 'shows Files paragraphs %r' % (bst[1],), ssrc, want_files,
+                         'shows them too' if at_comments else 'does not show them either', lines), small)
+        return
+    ctx.count('cmt:%d-files-paragraphs' % min(len(want_lists), 7))
+    bres, n = queries(bdoc, bst, 'bytes', 'M.cmt.find', 'cmt-find')
+    if n:
+        return
+    # --- str and bytes side by side (both were judged against the model; this is the differential statement itself)
+    if bst[1] != st[1]:
+        ctx.count('cmt:note:files-tuples-differ-between-str-and-bytes-without-observed-effect')
+    for name, a, b in zip(names, sres, bres):
+        ctx.mon('M.cmt.same')
+        if a != b and not any(not gl.legal for gl in want_lists):
+            s1 = dict(small)
+            s1['names'] = [name]
+            ctx.violation('bytes-document-resolves-differently-from-str-document' + ns,
+                          'find_files_paragraph(%r): document parsed from str (%s) -> %s, the same document parsed from bytes (%s) '
+                          '-> %s' % (name, ssrc, _show(a), src, _show(b)), s1)
+    if any(not gl.legal for gl in want_lists):
+        return
+    for name in names:
+        hits = [j for j, gl in enumerate(want_lists) if gl.matches(name)]
+        if len(hits) >= 2:
+            ctx.count('cmt-find:last-of-several-matching')
+        if hits and len(want_lists[hits[-1]].patterns) >= 2 and paras[[i for i, p in enumerate(paras) if 'F' in p][hits[-1]]].get('sep'):
+            ctx.count('cmt-find:resolves-to-paragraph-with-multi-line-files-field')
+
+
 def _para_ids(paragraphs):
     """Identify paragraphs by the unique id the generator put in them (Files:
     Copyright field; stand-alone License: synopsis).  The header is skipped."""
@@ -2027,13 +2691,13 @@ def _len_class(n):
     return '<72' if n < 72 else ('72-88' if n <= 88 else ('89-199' if n < 200 else ('200-399' if n < 400 else '400+')))
 
 
-def long_files_check(ctx, label, fps, lists, rr):
+def long_files_check(ctx, label, fps, lists, rr, pre='long'):
     """`files` of every paragraph against the list it was given.  A difference is NOT a verdict by itself (the statement
     is about matches / find_files_paragraph): it contributes the names that tell the two lists apart, which are then judged
     like every other name, and it goes into the mechanism key.  Returns (differs, extra names, description)."""
     differs, extra, what = False, [], None
     for k, (p, gl) in enumerate(zip(fps, lists)):
-        ctx.mon('M.long.files')
+        ctx.mon('M.%s.files' % pre)
         try:
             got = tuple(p.files)
         except Exception as e:
@@ -2062,7 +2726,11 @@ def run_long(ctx, case):
     ncls = list(case.get('ncls') or [])
     strict = case.get('strict', True)
     rr = random.Random('long/%d/%d' % (len(paras), len(names)))
-    ctx.count('long:documents')
+    # the same machinery drives two classes, kept apart in counters / monitors / mechanism keys: LONG pattern lists
+    # ('long') and patterns that START with '.' or '/' (case['cls'] == 'lead')
+    pre = 'lead' if case.get('cls') == 'lead' else 'long'
+    what_cls = 'leading-dot-or-slash-pattern' if pre == 'lead' else 'long-pattern-list'
+    ctx.count('%s:documents' % pre)
     probe = names[0] if names else 'x'
     c = cp.Copyright()
     tags, fps, lists, earlier = [], [], [], {}
@@ -2086,25 +2754,31 @@ def run_long(ctx, case):
                 c.add_files_paragraph(para)
             earlier[len(fps)] = [G.GlobList(p['first'])]
         gl = G.GlobList(pats)
-        gl.cheap = True
+        gl.cheap = pre
         tags.append(tag)
         fps.append(para)
         lists.append(gl)
         joined = len(' '.join(pats))
-        ctx.count('long:paragraph-via:%s' % via)
-        ctx.count('long:handed-over-as:%s' % conv.__name__)
-        ctx.count('long:joined-length:%s' % _len_class(joined))
+        ctx.count('%s:paragraph-via:%s' % (pre, via))
+        ctx.count('%s:handed-over-as:%s' % (pre, conv.__name__))
+        ctx.count('%s:joined-length:%s' % (pre, _len_class(joined)))
         if joined >= 89:
-            ctx.count('long:lists-beyond-one-text-line')
+            ctx.count('%s:lists-beyond-one-text-line' % pre)
         if any(len(x) >= 100 for x in pats):
-            ctx.count('long:list-with-single-pattern-of-100+-characters')
-        ctx.count('long:patterns', len(pats))
-        ctx.count('long:patterns-with-hyphen', sum(1 for x in pats if '-' in x))
-        ctx.count('long:patterns-with-wildcard', sum(1 for x in pats if '*' in x or '?' in x))
+            ctx.count('%s:list-with-single-pattern-of-100+-characters' % pre)
+        ctx.count('%s:patterns' % pre, len(pats))
+        ctx.count('%s:patterns-with-hyphen' % pre, sum(1 for x in pats if '-' in x))
+        ctx.count('%s:patterns-with-wildcard' % pre, sum(1 for x in pats if '*' in x or '?' in x))
         if not gl.legal:
-            ctx.count('long:list-with-illegal-escape')
+            ctx.count('%s:list-with-illegal-escape' % pre)
+        if pre == 'lead':
+            for x in pats:
+                ctx.count('lead:pattern-starts-with:%s' % lead_class(x))
     for cls in ncls:
-        ctx.count('long:name:%s' % cls)
+        ctx.count('%s:name:%s' % (pre, cls))
+    if pre == 'lead':
+        for x in names:
+            ctx.count('lead:name-starts-with:%s' % lead_class(x))
 
     def small_of(name):
         small = dict((k, v) for k, v in case.items() if k != 'ncls')
@@ -2122,13 +2796,13 @@ def run_long(ctx, case):
     def stage(label, doc, fps_, lists_, earlier_, mon):
         """True => nothing recorded at this stage."""
         mark = _viol_mark(ctx)
-        differs, extra, what = long_files_check(ctx, label, fps_, lists_, rr)
+        differs, extra, what = long_files_check(ctx, label, fps_, lists_, rr, pre)
         nm = names + [x for x in extra if x not in names]
         before = ctx.counters['op:matches']
-        doc_queries(ctx, case, doc, fps_, lists_, nm, earlier_, '-long-' + label, small_of=small_of, mon=mon, cnt='long-find')
+        doc_queries(ctx, case, doc, fps_, lists_, nm, earlier_, '-%s-%s' % (pre, label), small_of=small_of, mon=mon, cnt='%s-find' % pre)
         ctx.evaluations += len(nm)
-        ctx.count('long:matches-observed/%s' % label, ctx.counters['op:matches'] - before)
-        suffix = '/long-pattern-list-%s' % label
+        ctx.count('%s:matches-observed/%s' % (pre, label), ctx.counters['op:matches'] - before)
+        suffix = '/%s-%s' % (what_cls, label)
         if differs:
             suffix += '/files-differs-from-the-list-given'
         n = _viol_retag(ctx, mark, suffix)
@@ -2138,21 +2812,31 @@ def run_long(ctx, case):
             return False
         if differs:
             # no name of the workload tells the stored list from the given one: nothing this property talks about changed
-            ctx.count('long:note:files-differs-from-the-list-given-without-observed-effect/%s' % label)
-            ctx.extra.setdefault('long_notes', [])
-            if len(ctx.extra['long_notes']) < 3:
-                ctx.extra['long_notes'].append(what[:600])
+            ctx.count('%s:note:files-differs-from-the-list-given-without-observed-effect/%s' % (pre, label))
+            ctx.extra.setdefault('%s_notes' % pre, [])
+            if len(ctx.extra['%s_notes' % pre]) < 3:
+                ctx.extra['%s_notes' % pre].append(what[:600])
         return True
 
-    if not stage('built-through-api', c, fps, lists, earlier, 'M.long.find'):
+    if not stage('built-through-api', c, fps, lists, earlier, 'M.%s.find' % pre):
         return
     if not any(not gl.legal for gl in lists):
         for name in names:
             hits = [k for k, gl in enumerate(lists) if gl.matches(name)]
             if hits and len(' '.join(lists[hits[-1]].patterns)) >= 89:
-                ctx.count('long-find:resolves-to-paragraph-with-list-beyond-one-text-line')
+                ctx.count('%s-find:resolves-to-paragraph-with-list-beyond-one-text-line' % pre)
                 if len(hits) >= 2:
-                    ctx.count('long-find:last-of-several-matching-is-a-long-list')
+                    ctx.count('%s-find:last-of-several-matching-is-a-long-list' % pre)
+            if pre == 'lead':
+                if hits and any(lead_class(p) != 'other' and G.matches(t, name)
+                                for p, t in zip(lists[hits[-1]].patterns, lists[hits[-1]].toks)):
+                    ctx.count('lead-find:resolves-through-pattern-starting-with-dot-or-slash')
+                    if len(hits) >= 2:
+                        ctx.count('lead-find:last-of-several-matching-through-pattern-starting-with-dot-or-slash')
+                if not hits and lead_class(name) != 'other':
+                    ctx.count('lead-find:name-starting-with-dot-or-slash-resolves-to-none')
+                if hits and lead_class(name) == 'other':
+                    ctx.count('lead-find:name-without-leading-dot-or-slash-resolves-to-a-paragraph')
     if case.get('reassign'):
         k, newp = case['reassign']
         if k < len(fps):
@@ -2160,20 +2844,20 @@ def run_long(ctx, case):
             fps[k].files = list(newp)
             lists = list(lists)
             lists[k] = G.GlobList(newp)
-            lists[k].cheap = True
+            lists[k].cheap = pre
             earlier = dict(earlier)
             earlier[k] = [old] + list(earlier.get(k, ()))
             ctx.count('op:files-assign')
-            ctx.count('long:re-assigned-lists')
+            ctx.count('%s:re-assigned-lists' % pre)
             if old.legal and lists[k].legal:
                 for name in names:
                     if old.matches(name) != lists[k].matches(name):
                         ctx.mon('M.stale')
-                        ctx.count('long:stale-distinguishing-name')
-            if not stage('re-assigned', c, fps, lists, earlier, 'M.long.find'):
+                        ctx.count('%s:stale-distinguishing-name' % pre)
+            if not stage('re-assigned', c, fps, lists, earlier, 'M.%s.find' % pre):
                 return
     # dump() -> re-parse
-    ctx.mon('M.long.reparse')
+    ctx.mon('M.%s.reparse' % pre)
     mode = case.get('reparse', 'parse')
     try:
         if case.get('dump') == 'file':
@@ -2189,17 +2873,17 @@ def run_long(ctx, case):
         fps2 = list(c2.all_files_paragraphs())
         ids2 = _para_ids(fps2)
     except Exception as e:
-        ctx.violation('dump-of-built-document-does-not-reparse/long-pattern-list', 'dump() then Copyright(...) (source %s%s) raised '
+        ctx.violation('dump-of-built-document-does-not-reparse/' + what_cls, 'dump() then Copyright(...) (source %s%s) raised '
                       '%s: %s' % (mode, '' if strict else ', strict=False', type(e).__name__, e), whole)
         return
-    ctx.count('long:dump-%s' % ('written-to-file-object' if case.get('dump') == 'file' else 'returned'))
-    ctx.count('long:reparse-source:%s' % mode)
-    ctx.count('long:reparse-%s' % ('strict' if strict else 'strict=False'))
+    ctx.count('%s:dump-%s' % (pre, 'written-to-file-object' if case.get('dump') == 'file' else 'returned'))
+    ctx.count('%s:reparse-source:%s' % (pre, mode))
+    ctx.count('%s:reparse-%s' % (pre, 'strict' if strict else 'strict=False'))
     if ids2 != tags:
-        ctx.violation('dumped-document-has-different-files-paragraphs/long-pattern-list', 'dump() then parse shows Files paragraphs '
+        ctx.violation('dumped-document-has-different-files-paragraphs/' + what_cls, 'dump() then parse shows Files paragraphs '
                       '%r; the live document has %r' % (ids2, tags), whole)
         return
-    stage('after-dump-and-reparse', c2, fps2, lists, {}, 'M.long.reparse.find')
+    stage('after-dump-and-reparse', c2, fps2, lists, {}, 'M.%s.reparse.find' % pre)
 
 
 def _show(res):
@@ -2264,6 +2948,8 @@ def run_case(ctx, case):
         run_build(ctx, case)
     elif kind == 'long':
         run_long(ctx, case)
+    elif kind == 'cmt':
+        run_cmt(ctx, case)
     else:
         raise ValueError('unknown case kind %r' % kind)
 
